@@ -80,7 +80,13 @@ P = {
          "write_sample with an unknown track id is proved to return TrakNotFound leaving the writer unchanged; write_end is proved to hand MoovBox::write_box a tree whose every field fits its wire width (so the output satisfies C02/C04/C14), "
          "for any history. Six panics / silent corruptions on this path were found and repaired (D-35..D-39, D-32)."),
    note=TRUST + " Domain hypotheses (stated as preconditions, DESIGN D-20): fewer than 2^32-2 samples per track, sample length < 4 GiB, mdhd duration sum < 2^64, movie box <= 4 GiB (mw_moov_fits). catch_unwind-level observation (allocation failure, stack) is outside the model."),
- 'C18': dict(claim=False, reason='metadata decoding contracts not built yet in this revision'),
+ 'C18': dict(claim=True, cat='proof', technique='Verus: remaining-computation loop invariants against forward folds over the child boxes (spec/metadata.rs), accessor contracts through HashMap::get / Option::map with the real helper functions',
+   text=("For every byte sequence: DataBox::read_box returns the type indicator's data type and the payload bytes verbatim (rejecting exactly sizes < 16 and unknown type codes); IlstItemBox::read_box returns the item's data child; "
+         "IlstBox::read_box returns the map {title, year, poster, summary} -> value prescribed by the fold over the children, in which unknown items are no-ops by definition; MetaBox::read_box accepts both the ISO form (version/flags word) and the QuickTime form "
+         "(hdlr first), selects the handler of the hdlr child and returns the item list iff the handler is 'mdir'; UdtaBox::read_box returns its meta child. The accessors year() / poster() / title() are proved to return None for an absent key, the 4-byte big-endian value "
+         "or the decimal text for the year, the payload verbatim for the poster, and the UTF-8 decoding for the title."),
+   note=TRUST + " ASSUMED and listed in the evidence: String::from_utf8_lossy on valid UTF-8, `str::parse::<u32>` = decimal_u32 (outlined expression, sha-pinned), derive(Hash/Eq) of MetadataKey lawful, byteorder BigEndian::read_u32. "
+        "Not mechanised: the selection moov -> udta inside MoovBox::read_box, Mp4Reader::metadata() (`impl Trait` + blanket impls for &T / Option<T>: five lines of Option plumbing), IlstBox::summary (same code as title on another key; its name collides with the dropped Mp4Box::summary)."),
 }
 
 
